@@ -1,13 +1,17 @@
 package main
 
 import (
+	"context"
 	"encoding/base64"
 	"fmt"
 	"strconv"
 	"strings"
+	"time"
 
+	"github.com/go-kit/log"
 	"github.com/oklog/ulid/v2"
 	"github.com/prometheus/prometheus/model/labels"
+	"github.com/prometheus/prometheus/storage"
 	"golang.org/x/crypto/blake2b"
 
 	storecache "github.com/thanos-io/thanos/pkg/store/cache"
@@ -29,6 +33,13 @@ import (
 //   lms   <ms> <quote table>                  -> hex of LabelMatchersToString
 //   mkey  <type> <name> <value>               -> hex of the matchers-cache key
 //   mpair <type> <name> <value> <type> <name> <value>  -> eq | ne   (oracle: different matchers ⇒ ne)
+//   o.ic.flow <stored items ;-joined> <probed items ;-joined>
+//        end to end through the memcached index cache (RemoteIndexCache over an in-memory client):
+//        store one payload per item, fetch the probed items (postings and series in one batch per
+//        block); oracle: a hit carries the payload of the same item, an item that was never stored misses
+//   o.mc.flow <stored matchers ;-joined> <probed matchers ;-joined>
+//        end to end through the matchers conversion cache (GetOrSet, every matcher cacheable);
+//        oracle: the converted matcher that comes back is the one of the matcher asked for
 
 func init() {
 	props = append(props, &hlib.Prop{ID: "C13", Gen: genC13, Exec: execC13})
@@ -341,8 +352,217 @@ func execC13(c *hlib.Ctx, tok []string) string {
 			c.Violation("same-item-different-key", "one matcher, two keys")
 		}
 		return eqne(k1 == k2)
+	case "o.ic.flow":
+		if len(tok) != 3 {
+			return "bad-op"
+		}
+		return c13IndexCacheFlow(c, tok[1], tok[2])
+	case "o.mc.flow":
+		if len(tok) != 3 {
+			return "bad-op"
+		}
+		return c13MatcherCacheFlow(c, tok[1], tok[2])
 	}
 	return "bad-op"
+}
+
+// fakeMemcached is an in-memory cacheutil.RemoteCacheClient that never loses anything.
+type fakeMemcached struct{ data map[string][]byte }
+
+func (f *fakeMemcached) GetMulti(_ context.Context, keys []string) map[string][]byte {
+	out := map[string][]byte{}
+	for _, k := range keys {
+		if v, ok := f.data[k]; ok {
+			out[k] = v
+		}
+	}
+	return out
+}
+func (f *fakeMemcached) SetAsync(key string, value []byte, _ time.Duration) error {
+	f.data[key] = append([]byte(nil), value...)
+	return nil
+}
+func (f *fakeMemcached) Stop() {}
+
+func parseItems(s string) ([]c13Item, bool) {
+	var out []c13Item
+	for _, t := range hlib.Split(s, ";") {
+		it, ok := parseC13Item(t)
+		if !ok {
+			return nil, false
+		}
+		out = append(out, it)
+	}
+	return out, true
+}
+
+func c13IndexCacheFlow(c *hlib.Ctx, storedTok, probedTok string) string {
+	stored, ok1 := parseItems(storedTok)
+	probed, ok2 := parseItems(probedTok)
+	if !ok1 || !ok2 {
+		return "bad-op"
+	}
+	// the compression scheme is the cache's own (one per RemoteIndexCache), not part of the item here
+	for i := range stored {
+		stored[i].comp = ""
+	}
+	for i := range probed {
+		probed[i].comp = ""
+	}
+	ic, err := storecache.NewRemoteIndexCache(log.NewNopLogger(), &fakeMemcached{data: map[string][]byte{}}, nil, nil, time.Hour)
+	if err != nil {
+		return "bad-op"
+	}
+	blockOf := func(it c13Item) (ulid.ULID, bool) {
+		id, err := ulid.Parse(it.block)
+		return id, err == nil
+	}
+	payload := func(i int) []byte { return []byte(fmt.Sprintf("payload-of-stored-item-%d", i)) }
+	for i, it := range stored {
+		id, ok := blockOf(it)
+		if !ok {
+			return "bad-op"
+		}
+		switch it.kind {
+		case 'P':
+			ic.StorePostings(id, labels.Label{Name: it.name, Value: it.value}, payload(i), "t")
+		case 'E':
+			ic.StoreExpandedPostings(id, promMatchers(it.ms), payload(i), "t")
+		default:
+			ic.StoreSeries(id, storage.SeriesRef(it.id), payload(i), "t")
+		}
+	}
+	// what a probe may come back with: the payload of the LAST stored item that is the same item
+	want := func(it c13Item) ([]byte, bool) {
+		for i := len(stored) - 1; i >= 0; i-- {
+			if stored[i].same(it) {
+				return payload(i), true
+			}
+		}
+		return nil, false
+	}
+	judge := func(it c13Item, got []byte, hit bool) {
+		w, shouldHit := want(it)
+		switch {
+		case hit && !shouldHit, hit && shouldHit && string(got) != string(w):
+			class := "index-cache-cross-answer"
+			if it.kind == 'P' {
+				for _, s := range stored {
+					if s.kind == 'P' && !s.same(it) && s.block == it.block && (strings.Contains(s.name, ":") || strings.Contains(it.name, ":")) &&
+						s.name+":"+s.value == it.name+":"+it.value {
+						class = "postings-name-colon"
+					}
+				}
+			}
+			c.Violation(class, fmt.Sprintf("the lookup of %s is answered with %q", describe(it), got))
+		case !hit && shouldHit:
+			c.Violation("index-cache-lost-item", fmt.Sprintf("%s was stored but is not found", describe(it)))
+		}
+	}
+	hits, misses := 0, 0
+	count := func(h bool) {
+		if h {
+			hits++
+		} else {
+			misses++
+		}
+	}
+	// postings and series: one batch per block (exercises the mapping of results back to items)
+	byBlock := map[string][]c13Item{}
+	var order []string
+	for _, it := range probed {
+		if _, ok := blockOf(it); !ok {
+			return "bad-op"
+		}
+		if _, seen := byBlock[it.block]; !seen {
+			order = append(order, it.block)
+		}
+		byBlock[it.block] = append(byBlock[it.block], it)
+	}
+	ctx := context.Background()
+	for _, blk := range order {
+		id, _ := ulid.Parse(blk)
+		var lbls []labels.Label
+		var ids []storage.SeriesRef
+		for _, it := range byBlock[blk] {
+			switch it.kind {
+			case 'P':
+				lbls = append(lbls, labels.Label{Name: it.name, Value: it.value})
+			case 'S':
+				ids = append(ids, storage.SeriesRef(it.id))
+			default:
+				got, hit := ic.FetchExpandedPostings(ctx, id, promMatchers(it.ms), "t")
+				judge(it, got, hit)
+				count(hit)
+			}
+		}
+		if len(lbls) > 0 {
+			h, m := ic.FetchMultiPostings(ctx, id, lbls, "t")
+			for _, it := range byBlock[blk] {
+				if it.kind == 'P' {
+					got, hit := h[labels.Label{Name: it.name, Value: it.value}]
+					judge(it, got, hit)
+					count(hit)
+				}
+			}
+			if len(h)+len(m) < len(uniqueLabels(lbls)) {
+				c.Violation("index-cache-lost-item", "FetchMultiPostings: hits and misses do not cover the request")
+			}
+		}
+		if len(ids) > 0 {
+			h, _ := ic.FetchMultiSeries(ctx, id, ids, "t")
+			for _, it := range byBlock[blk] {
+				if it.kind == 'S' {
+					got, hit := h[storage.SeriesRef(it.id)]
+					judge(it, got, hit)
+					count(hit)
+				}
+			}
+		}
+	}
+	return fmt.Sprintf("hits=%d misses=%d", hits, misses)
+}
+
+func uniqueLabels(l []labels.Label) map[labels.Label]struct{} {
+	m := map[labels.Label]struct{}{}
+	for _, x := range l {
+		m[x] = struct{}{}
+	}
+	return m
+}
+
+func c13MatcherCacheFlow(c *hlib.Ctx, storedTok, probedTok string) string {
+	stored, ok1 := parseC13Matchers(storedTok)
+	probed, ok2 := parseC13Matchers(probedTok)
+	if !ok1 || !ok2 {
+		return "bad-op"
+	}
+	mc, err := storecache.NewMatchersCache(storecache.WithSize(1000),
+		storecache.WithIsCacheableFunc(func(storecache.ConversionLabelMatcher) bool { return true }))
+	if err != nil {
+		return "bad-op"
+	}
+	conv := func(m c13Matcher) (*labels.Matcher, error) {
+		// (built directly: compiling the value as a regular expression is not the point here)
+		return &labels.Matcher{Type: labels.MatchType(m.t), Name: m.n, Value: m.v}, nil
+	}
+	hits := 0
+	for _, m := range append(append([]c13Matcher(nil), stored...), probed...) {
+		m := m
+		fresh := false
+		got, err := mc.GetOrSet(pbMatcher{m}.lm(), func() (*labels.Matcher, error) { fresh = true; return conv(m) })
+		if err != nil {
+			return "err"
+		}
+		if !fresh {
+			hits++
+		}
+		if int(got.Type) != m.t || got.Name != m.n || got.Value != m.v {
+			c.Violation("matcher-cache-cross-answer", fmt.Sprintf("the conversion of %s is answered with the cached matcher {%q %s %q}",
+				describeM(m), got.Name, got.Type, got.Value))
+		}
+	}
+	return fmt.Sprintf("hits=%d", hits)
 }
 
 var opStr = []string{"=", "!=", "=~", "!~"}
@@ -424,6 +644,11 @@ func classifyItem(c *hlib.Ctx, it c13Item) {
 func doPair(c *hlib.Ctx, a, b c13Item) {
 	classifyItem(c, a)
 	classifyItem(c, b)
+	if c.R.Chance(1, 4) {
+		// the same pair end to end: a is stored, b (and a) are looked up
+		c.Count("flow:index-cache")
+		c.Do(fmt.Sprintf("o.ic.flow %s %s;%s", a.tok(), b.tok(), a.tok()), true)
+	}
 	qt := table(strconv.Quote, append(a.quoted(), b.quoted()...))
 	out := c.Do(fmt.Sprintf("pair %s %s %s", a.tok(), b.tok(), qt), true)
 	c.Count("pair:" + out)
@@ -608,6 +833,10 @@ func genC13(c *hlib.Ctx) {
 				m1.t = 1
 				m2 = c13Matcher{t: 0, n: m1.n + "!", v: m1.v}
 				c.Count("mpair:bang-moves")
+			}
+			if r.Chance(1, 4) {
+				c.Count("flow:matchers-cache")
+				c.Do(fmt.Sprintf("o.mc.flow %s %s;%s", m1.tok(), m2.tok(), m1.tok()), true)
 			}
 			out := c.Do(fmt.Sprintf("mpair %d %s %s %d %s %s", m1.t, hlib.HexS(m1.n), hlib.HexS(m1.v), m2.t, hlib.HexS(m2.n), hlib.HexS(m2.v)), true)
 			c.Count("mpair:" + out)
